@@ -35,6 +35,9 @@ CHECKS = {
  "C13": ("exploration", "bounded-exhaustive hostile response generation from a scripted server against the real client in child processes (crash = violation with exact sequence), termination oracle at final states after the connection is closed, provenance oracle for every returned message",
          "Every response sequence up to length 3/4 (2/3 for the other configurations) over 20 shapes x {call A, call B, unknown id}, with and without a stats handler, for unary+stream and stream+stream pairings, then the connection is closed: no crash, every operation (Invoke, Header, receive loop, Trailer - each in its own goroutine) has returned at the final state, every returned message is carried in order by an envelope addressed to that call, success only with data / a successful end addressed to the call.",
          "Exhaustive over the stated alphabet and lengths only.", "DESIGN.md 2/C13"),
+ "C07": ("fault_enumeration", "cancellation / manual-deadline expiry injected by a tap callback after every prefix of the wire trace; monitors on later operations, resets on the wire, handler context at provably final states, probe call",
+         "For 7 program pairs over the 3 streaming kinds (incl. 0..5 responses queued unread, with and without other calls) the cancel or deadline expiry is placed at every position of the wire trace. At final states: all operations returned, later receives report Canceled/DeadlineExceeded, later sends fail, exactly one reset unless the trailer was already delivered, handler not left running with a live context, a probe call succeeds.",
+         "Positions exhaustive per scenario; schedules sampled; deadlines are harness-fired (manual context), not wall-clock.", "DESIGN.md 2/C07"),
 }
 NOT_YET = "check not built yet in this round (runtime-monitoring design in DESIGN.md section 2); will be claimed once its monitor exists"
 
